@@ -63,7 +63,8 @@ Proof. vm_compute. reflexivity. Qed.
 (* dispatch is "the first rule whose pattern has a match on the line": the executable matcher of the model finds a match exactly
    when one exists in the declarative semantics [mx] (anchors, word boundaries, both look-aheads, repetition bounds all
    constrained) -- soundness and completeness of the backtracking matcher, for every pattern whose repetition bodies cannot match
-   the empty string and whose look-aheads hold no group; 79 of the 82 generated patterns are of that kind *)
+   the empty string (an optional part excepted: it is never iterated twice) and whose look-aheads hold no group; all 82
+   generated patterns are of that kind *)
 Theorem C08_matcher_sound_and_complete : forall r, wf_exact r = true -> soundX r (exec r) /\ completeX r (exec r).
 Proof. exact exec_exact. Qed.
 Print Assumptions C08_matcher_sound_and_complete.
